@@ -2,6 +2,7 @@ package readline
 
 import (
 	"unicode"
+	"unicode/utf8"
 
 	"github.com/reeflective/readline/inputrc"
 	"github.com/reeflective/readline/internal/keymap"
@@ -427,7 +428,7 @@ func (rl *Shell) viMatchBracket() {
 	case len(split) == 0 || index < 0 || index >= len(split):
 		return
 	case pos == 0:
-		adjust = len(split[index])
+		adjust = utf8.RuneCountInString(split[index])
 	default:
 		adjust = pos * -1
 	}
